@@ -318,6 +318,13 @@ def run(ctx, eng):
                'a frame of the wrong size is detected by parse_body, whose '
                'refusal is translated into FRAME_SIZE_ERROR: no frame leaves '
                'the buffer unparsed')
+    cm.include(ctx, eng, 'C21', {'COH.frame-size'},
+               'FRAME_SIZE_ERROR is decided against the limit in force when '
+               'the frame arrives: the acknowledged value, at once')
+    cm.include(ctx, eng, 'C04', {'FLOW.charge'},
+               'FLOW_CONTROL_ERROR for a window overrun counts what the RFC '
+               'counts: the whole flow-controlled length, padding included, '
+               'on both windows')
     cm.include(ctx, eng, 'C09', {'ARITH.lookup'},
                'a frame on an idle stream is PROTOCOL_ERROR, on a forgotten '
                'one STREAM_CLOSED: told apart by the id\'s own direction')
